@@ -8,7 +8,11 @@
  *   pool.worker    : worker_thread            any number of items (loop contracts): head only, run outside the mutex, ...
  *   pool.wait      : ldb_pool_wait            returns only with left == 0, predicate re-tested
  *   pool.destroy   : ldb_pool_destroy         discards queued work, stop + broadcast, waits for running == 0, tears down once
- *   pool.*.b       : bounded siblings without loop contracts (robust against a changed loop structure: while -> if)
+ *   pool.wait.b / pool.destroy.b / pool.worker.b : bounded siblings without loop contracts (they also decide mutants that
+ *                    change the loop structure, e.g. while -> if, which a loop-contract unit reports as extraction break)
+ *   pool.q_clear.b : ldb_queue_clear on 0..3 separately allocated, really freed nodes (double free / use after free)
+ * Loop contracts: loops/pool.json (ldb_queue_clear, ldb_pool_schedule, ldb_pool_wait, ldb_pool_destroy, worker_thread x2).
+ * Carriers c_queue_push / c_queue_shift are enforced here and replaced nowhere (no trusted.json entry needed).
  *
  * The real thread_pool.c is included unmodified.  Environment (ghost models, all in this file):
  *   - ldb_malloc = malloc that does not fail (lcdb aborts on allocation failure); ldb_free = ghost bookkeeping
@@ -42,6 +46,14 @@
  *   - nobody changes `threads`; nobody frees the pool while a worker is registered in `running`
  *   - fairness (only used for the termination measures): after finitely many acquisitions (ghost fuel, arbitrary) the
  *     condition the thread under test waits for holds.
+ *
+ * Observations about the code (not failures of these units, see the "assumes" of pool.worker / pool.destroy):
+ *   - master is signalled, not broadcast: two concurrent ldb_pool_wait callers => one stays blocked with left == 0
+ *     (-DPOOL_MULTI_WAITER turns this into an obligation of pool.worker, which then fails on the unchanged code);
+ *   - ldb_pool_destroy discards queued items without subtracting them from left, and a worker does not signal
+ *     left == 0 once stop is set: a ldb_pool_wait racing with ldb_pool_destroy is never woken for left == 0 (and may
+ *     swallow the single running == 0 signal meant for the destroyer).  The API gives no way to use that race safely
+ *     (the pool is freed), so it is recorded as an observation.
  */
 #include "verif.h"
 #include <stddef.h>
@@ -64,6 +76,7 @@ enum { R_NONE, R_SCHED, R_WORKER, R_WAIT, R_DESTROY };
 int g_role;
 ldb_pool_t *g_pool;            /* the pool of the call under test                                        */
 int g_threads0;                /* pool->threads (constant)                                               */
+unsigned g_lock_fuel;           /* fairness budget left after the last ldb_mutex_lock (termination measure of nested loops) */
 int g_array_queue;             /* the queue the other threads leave is the array-embedded list g_nodes   */
 
 /* protocol state written by the primitive models (one object: one assigns target in the loop contracts) */
@@ -97,6 +110,7 @@ struct g_threads {
 /* allocation */
 unsigned g_mallocs; void *g_last_alloc; size_t g_last_alloc_size;
 unsigned g_pool_frees, g_bad_frees;
+int g_real_nodes; unsigned g_real_frees;
 /* initialisation / destruction of the primitives */
 unsigned g_mutex_inits, g_cond_inits, g_mutex_destroys, g_cw_destroys, g_cm_destroys, g_other_destroys;
 ldb_mutex_t *g_minit_ptr; ldb_cond_t *g_cinit_ptr[2];
@@ -154,6 +168,11 @@ void ldb_free(void *p) {
        clearing loop: dfcc proves the loop never writes a node, so this is a fact about the initial state. */
     if (GA.frees < g_n)
       __CPROVER_assume(g_nodes[GA.frees].w.next == (GA.frees + 1 < g_n ? &g_nodes[GA.frees + 1].w : NULL));
+    return;
+  }
+  if (g_real_nodes) {              /* pool.q_clear.b: separately allocated nodes, really freed (double free / use after free flagged by cbmc) */
+    g_real_frees++;
+    free(p);
     return;
   }
   if (g_role == R_WORKER) {
@@ -337,6 +356,7 @@ void ldb_mutex_lock(ldb_mutex_t *m) {
   __CPROVER_assert(!G.exited, "a worker does not touch the pool after it deregistered (the destroyer may free it)");
   G.held = 1; G.locks++;
   on_acquire();
+  g_lock_fuel = G.fuel;
 }
 void ldb_mutex_unlock(ldb_mutex_t *m) {
   __CPROVER_assert(!G.pool_freed, "no use of the pool after it was freed (unlock)");
@@ -375,7 +395,17 @@ void ldb_cond_signal(ldb_cond_t *cv) {
   __CPROVER_assert(!G.pool_freed, "no use of the pool after it was freed (signal)");
   __CPROVER_assert(G.held, "signal: under the pool mutex");
   if (cv == &p->worker) { G.sig_worker++; G.wsig_len = p->queue.length; }
-  else if (cv == &p->master) { G.sig_master++; if (p->left == 0) G.msig_left0 = 1; if (p->running == 0) G.msig_run0 = 1; }
+  else if (cv == &p->master) {
+    G.sig_master++;
+    /* a signal wakes ONE thread blocked on master.  That is enough under the assumption recorded in the unit records:
+       at most one thread is blocked on master at any time (one ldb_pool_wait caller, or the destroyer).  With
+       -DPOOL_MULTI_WAITER (several concurrent ldb_pool_wait callers) only a broadcast pays the left == 0 debt; the
+       unchanged code then FAILS "left reached 0 => master was signalled" in pool.worker - see the group's report. */
+#ifndef POOL_MULTI_WAITER
+    if (p->left == 0) G.msig_left0 = 1;
+#endif
+    if (p->running == 0) G.msig_run0 = 1;
+  }
   else { G.sig_other++; __CPROVER_assert(0, "signal: one of the pool's condition variables"); }
 }
 void ldb_cond_broadcast(ldb_cond_t *cv) {
@@ -414,7 +444,7 @@ void ldb_thread_join(ldb_thread_t *thread) { __CPROVER_assert(0, "the pool never
 
 /* -------------------------------------------------------------- harness setup */
 static void reset_ghost(int role) {
-  g_role = role; g_array_queue = 0; g_pool = NULL; g_threads0 = 1;
+  g_role = role; g_array_queue = 0; g_real_nodes = 0; g_real_frees = 0; g_pool = NULL; g_threads0 = 1;
   G.held = 0; G.locks = 0; G.unlocks = 0; G.waits = 0; G.exited = 0; G.pool_freed = 0;
   G.fuel = nondet_unsigned(); __CPROVER_assume(G.fuel < (1u << 30));
   G.acq_len = G.acq_left = G.acq_running = G.acq_stop = G.acq_mine = 0;
@@ -540,7 +570,8 @@ void h_q_shift(void) {
 static void mk_array_list(int maxn) {
   g_array_queue = 1;
   g_n = nondet_int(); __CPROVER_assume(g_n >= 0 && g_n < maxn);
-  g_nodes = malloc((size_t)g_n * sizeof(struct g_slot)); __CPROVER_assume(g_nodes != NULL);
+  /* symbolic size: the object stays in the array theory (AUTHORING); the bounded siblings use a small constant size */
+  g_nodes = malloc(maxn <= 8 ? 8 * sizeof(struct g_slot) : (size_t)g_n * sizeof(struct g_slot)); __CPROVER_assume(g_nodes != NULL);
   g_k = nondet_int(); __CPROVER_assume(g_k >= 0 && (g_k < g_n || g_n == 0));
   /* list precondition, instantiated for the first node (the rest lazily in ldb_free) */
   if (g_n > 0) __CPROVER_assume(g_nodes[0].w.next == (g_n > 1 ? &g_nodes[1].w : NULL));
@@ -628,5 +659,72 @@ void h_destroy(void) {
   ldb_pool_destroy(p);
 
   DESTROY_CHECKS();
+  CANARY();
+}
+
+/* ------------------------------------------------------------------ bounded siblings
+ * Same obligations without loop contracts (plain unwinding with unwinding assertions, at most 3 acquisitions of the
+ * mutex / 3 queued items).  They do not depend on the loop structure of the functions, so they also decide mutants that
+ * add or remove a loop (while -> if around ldb_cond_wait), which the loop-contract units can only report as
+ * "extraction changed".  Never counted as proofs. */
+void h_wait_b(void) {
+  ldb_pool_t *p;
+  reset_ghost(R_WAIT); __CPROVER_assume(G.fuel <= 2);
+  p = mk_pool();
+  init_window(job_stub);
+
+  ldb_pool_wait(p);
+
+  CHECK(!G.held && G.locks == G.unlocks, "wait: returns with the mutex released, lock/unlock balanced");
+  CHECK(G.rel_valid && G.rel_left == 0, "wait: returns only when left == 0 was seen under the mutex");
+  CHECK(G.sig_worker + G.bc_worker + G.sig_master + G.bc_master == 0 && G.job_calls == 0, "wait: signals nothing, runs nothing");
+  CANARY();
+}
+void h_destroy_b(void) {
+  ldb_pool_t *p; int i;
+  reset_ghost(R_DESTROY); __CPROVER_assume(G.fuel <= 4);   /* 2 acquisitions by the two lock calls + up to 3 waits */
+  p = mk_pool();
+  mk_array_list(4);
+  /* without loop contracts symex needs the links as assignments (a pointer read from memory that is only constrained by
+     an assumption has no points-to set) */
+  for (i = 0; i < g_n; i++) g_nodes[i].w.next = i + 1 < g_n ? &g_nodes[i + 1].w : NULL;
+
+  ldb_pool_destroy(p);
+
+  DESTROY_CHECKS();
+  CANARY();
+}
+void h_worker_b(void) {
+  ldb_pool_t *p;
+  reset_ghost(R_WORKER); __CPROVER_assume(G.fuel <= 2);
+  p = mk_pool();
+  init_window(job_stub);
+
+  worker_thread(p);
+
+  CHECK(!G.held && G.locks == G.unlocks, "worker: the mutex is released at exit, lock/unlock balanced");
+  CHECK(G.exited && G.rel_stop == 1, "worker: leaves only after stop, having deregistered (--running) exactly once");
+  CHECK(G.cur == 0 && G.execs == G.takes && G.nfrees == G.takes, "worker: every item it took was executed exactly once and freed exactly once");
+  CHECK(G.mine == 0, "worker: every executed item was subtracted from left before it left");
+  CANARY();
+}
+/* ldb_queue_clear on 0..3 separately allocated nodes that are really freed */
+void h_q_clear_b(void) {
+  ldb_queue_t q; int n = nondet_int(), i; ldb_work_t *prev = NULL;
+  reset_ghost(R_NONE); g_real_nodes = 1;
+  __CPROVER_assume(n >= 0 && n <= 3);
+  q.head = NULL; q.tail = NULL; q.length = n;
+  for (i = 0; i < n; i++) {
+    ldb_work_t *w = malloc(sizeof(ldb_work_t)); __CPROVER_assume(w != NULL);
+    w->func = job_stub2; w->arg = nondet_ptr(); w->next = NULL;
+    if (prev == NULL) q.head = w; else prev->next = w;
+    prev = w; q.tail = w;
+  }
+
+  ldb_queue_clear(&q);
+
+  CHECK(g_real_frees == (unsigned)n, "clear: exactly one free per queued node (double free / use after free are flagged by the memory model)");
+  CHECK(q.head == NULL && q.tail == NULL && q.length == 0, "clear: the queue is empty afterwards");
+  CHECK(G.job_calls == 0 && G.job2_calls == 0, "clear: discarded items are never executed");
   CANARY();
 }
